@@ -752,3 +752,150 @@ def rf78(run, units=('c2mir', 'mir', 'gen')):
                                   'that neither destroys it nor hands it to anything: its blocks are never returned to the allocator' % (v, cx['l'], f.name),
                                   line=cx['l'])
     return n
+
+
+# ---------------------------------------------------------------------------------------------
+# RF78b: an object obtained from an allocating function into a local is linked, freed, returned or handed over on every path
+# ---------------------------------------------------------------------------------------------
+RAW_ALLOC = {'gen_malloc', 'MIR_malloc', 'MIR_calloc', 'gen_malloc_and_mark_to_free'}
+RAW_FREE = {'gen_free', 'MIR_free', 'free'}
+
+
+def _alloc_wrappers(tu):
+    W = set()
+    for _ in range(3):
+        for f in tu.func_list:
+            if f.name in W or f.name in RAW_ALLOC or f.body is None:
+                continue
+            srcs = set()
+            for x in f.walk():
+                if x['k'] == 'BinaryOperator' and x['op'] == '=' and F.strip(x['c'][0])['k'] == 'DeclRefExpr':
+                    r = F.strip(x['c'][1])
+                    if r['k'] == 'CallExpr' and (r.get('callee') in RAW_ALLOC or r.get('callee') in W):
+                        srcs.add(F.strip(x['c'][0])['n'])
+                elif x['k'] == 'DeclStmt':
+                    for d in x['decls']:
+                        if d.get('init') is not None:
+                            r = F.strip(d['init'])
+                            if r['k'] == 'CallExpr' and (r.get('callee') in RAW_ALLOC or r.get('callee') in W):
+                                srcs.add(d['n'])
+            rets = [F.strip(x['c'][0]) for x in f.walk() if x['k'] == 'ReturnStmt' and x.get('c') and x['c'][0] is not None]
+            if srcs and rets and any(r['k'] == 'DeclRefExpr' and r['n'] in srcs for r in rets):
+                # the function must hand the block to its caller only: if it links the block into something itself (stores the
+                # pointer, passes it on), the caller receives a borrowed pointer and owes nothing
+                owned = True
+                top = {id(k_) for k_ in F.kids(f.body)}
+                uncond = []
+                for k_ in F.kids(f.body):
+                    if k_['k'] not in ('IfStmt', 'ForStmt', 'WhileStmt', 'SwitchStmt', 'DoStmt'):
+                        uncond.extend(F.walk(k_))
+                for x in uncond:
+                    if x['k'] == 'CallExpr' and x.get('callee') not in RAW_ALLOC and x.get('callee') not in ('memset', 'memcpy'):
+                        if any(F.strip(a_)['k'] == 'DeclRefExpr' and F.strip(a_)['n'] in srcs for a_ in F.call_args(x)):
+                            owned = False
+                    if x['k'] == 'BinaryOperator' and x['op'] == '=' and F.strip(x['c'][1])['k'] == 'DeclRefExpr' and F.strip(x['c'][1])['n'] in srcs \
+                            and not (F.strip(x['c'][0])['k'] == 'DeclRefExpr' and F.strip(x['c'][0]).get('dk') == 'local'):
+                        owned = False
+                if owned:
+                    W.add(f.name)
+    return W
+
+
+def rf78b(run, units=('gen',)):
+    rule = 'RF78b'
+    run.rule(rule, 'an object that a function obtains from an allocating function (gen_malloc / MIR_malloc or a wrapper that returns such a '
+                   'block to its caller only, e.g. create_loop_node) into a local variable is, on every path to an early `return 0 / FALSE / '
+                   'NULL` of that function, freed, stored into another object or variable, or passed to another function; reading its '
+                   'fields is not a hand-over')
+    n = 0
+    for u in units:
+        tu = run.tu(u)
+        W = _alloc_wrappers(tu)
+        for f in tu.func_list:
+            if not f.file.startswith('/repo') or f.cfg_raw is None or f.name in W or f.name.startswith(('VARR_', 'HTAB_', 'bitmap_', 'DLIST_')):
+                continue
+            sites = []
+            for x in f.walk():
+                if x['k'] == 'BinaryOperator' and x['op'] == '=' and F.strip(x['c'][0])['k'] == 'DeclRefExpr' and F.strip(x['c'][0]).get('dk') == 'local':
+                    r = F.strip(x['c'][1])
+                    if r['k'] == 'CallExpr' and (r.get('callee') in RAW_ALLOC or r.get('callee') in W):
+                        sites.append((x, F.strip(x['c'][0])['n'], r.get('callee')))
+                elif x['k'] == 'DeclStmt':
+                    for d in x['decls']:
+                        if d.get('init') is not None:
+                            r = F.strip(d['init'])
+                            if r['k'] == 'CallExpr' and (r.get('callee') in RAW_ALLOC or r.get('callee') in W):
+                                sites.append((x, d['n'], r.get('callee')))
+            if not sites:
+                continue
+            cfg = f.cfg
+            for sx, v, how in sites:
+                def consumes(e, v=v, sx=sx):
+                    for y in cfg.local_walk(e):
+                        if y is sx:
+                            continue
+                        if y['k'] == 'CallExpr':
+                            for a_ in F.call_args(y):
+                                a0 = F.strip(a_)
+                                if a0['k'] == 'DeclRefExpr' and a0['n'] == v:
+                                    return True
+                        if y['k'] == 'ReturnStmt' and y.get('c') and y['c'][0] is not None and F.strip(y['c'][0])['k'] == 'DeclRefExpr' and F.strip(y['c'][0])['n'] == v:
+                            return True
+                        if y['k'] == 'BinaryOperator' and y['op'] == '=' and F.strip(y['c'][1])['k'] == 'DeclRefExpr' and F.strip(y['c'][1])['n'] == v:
+                            l = F.strip(y['c'][0])
+                            if not (l['k'] == 'DeclRefExpr' and l['n'] == v):
+                                return True
+                        if y['k'] == 'DeclStmt':
+                            for d in y['decls']:
+                                if d.get('init') is not None and F.strip(d['init'])['k'] == 'DeclRefExpr' and F.strip(d['init'])['n'] == v and d['n'] != v:
+                                    return True
+                    return False
+                cb = cfg.block_of(sx)
+                if cb is None:
+                    continue
+                B = cfg.blocks[cb]
+                after, done = False, False
+                for e in cfg.top_elems(B):
+                    if any(y is sx for y in F.walk(e)) or e is sx:
+                        after = True
+                        continue
+                    if after and consumes(e):
+                        done = True
+                leak = None
+                if not done:
+                    cons = {b for b, BB in cfg.blocks.items() if b != cb and any(consumes(e) for e in cfg.top_elems(BB))}
+                    dead_edges = set()
+                    for b, BB in cfg.blocks.items():
+                        if BB.cond is None or len(BB.succs) != 2:
+                            continue
+                        ct = F.src(F.strip(BB.cond)).replace(' ', '').strip('()')
+                        if ct in ('%s!=0' % v, '%s!=NULL' % v, v) and BB.succs[1] is not None:
+                            dead_edges.add((b, BB.succs[1]))
+                        elif ct in ('%s==0' % v, '%s==NULL' % v, '!%s' % v) and BB.succs[0] is not None:
+                            dead_edges.add((b, BB.succs[0]))
+                    reach, work = set(), [cb]
+                    while work:
+                        b = work.pop()
+                        if b in reach:
+                            continue
+                        reach.add(b)
+                        if b in cons and b != cb:
+                            continue
+                        for s_ in cfg.live_succs(b):
+                            if (b, s_) not in dead_edges:
+                                work.append(s_)
+                    reach -= cons
+                    # only the early "nothing done" exits are judged (return of a zero constant): on the normal path the object is
+                    # usually linked inside a loop whose zero-iteration path is infeasible, which this rule cannot see
+                    exits = [b for b in reach if any(e['k'] == 'ReturnStmt' and e.get('c') and e['c'][0] is not None and F.const_value(F.strip(e['c'][0])) == 0
+                                                     for e in cfg.blocks[b].elems) and not cfg.blocks[b].noreturn]
+                    if exits:
+                        leak = exits[0]
+                n += 1
+                run.functions_analysed.add((u, f.name))
+                run.ob(rule, (u, f.name, sx['l']), leak is None, {'site': '%s:%d %s' % (f.relfile(), sx['l'], f.name), 'object': v, 'from': how} if n % 8 == 1 or leak is not None else None)
+                if leak is not None:
+                    run.violation(rule, f, 'object %s lost on a path' % v, 'the block that `%s` receives from %s at line %d reaches a return of %s on a '
+                                  'path on which it is neither linked into anything, nor freed, returned or handed over: it is never given back to '
+                                  'the allocator' % (v, how, sx['l'], f.name), line=sx['l'])
+    return n
